@@ -84,6 +84,9 @@ def _any_edgeworth(prog, res):
 
 
 def run(prog, res):
+  from ..rules import guards as _gsc
+  _gsc.check_self_clip_order(prog, res, [f for m in ['lattice_lib'] for f in prog.module(m).all_functions()])
+  res.floor('X5', 4)
   from ..rules import hashkeys
   for q in ('lattice_lib.project_by_dykstra', 'lattice_lib._approximately_project_trapezoid'):
     hashkeys.check_function(prog, res, prog.function(q))
